@@ -2828,10 +2828,13 @@ class RockRidge:
                     compslice = comp
                 else:
                     complen = RRSLRecord.Component.length(comp[offset:])
+                    # 'length' is the number of data bytes of this component
+                    # that go into the current SL record; the two-byte
+                    # component header is accounted separately below.
                     if complen > curr_comp_area_length:
                         length = curr_comp_area_length - 2
                     else:
-                        length = complen
+                        length = complen - 2
                     compslice = comp[offset:offset + length]
 
                 curr_sl.add_component(compslice)
